@@ -224,6 +224,23 @@ def classify(stderr):
     return refut, other
 
 
+def refutation_kind(kind, text):
+    """`semantic`: an obligation of the code itself (function postcondition, precondition of an unsafe
+    operation / callee, bounds, overflow, closure post-condition).  `scaffolding`: an obligation of the
+    proof annotations (loop invariant, assert in a proof block, precondition of a lemma call)."""
+    if kind.startswith("invariant") or kind.startswith("loop invariant") or kind.startswith("cannot show invariant") or kind == "assertion failed" \
+            or kind.startswith("decreases") or kind.startswith("could not prove termination"):
+        return "scaffolding"
+    if kind.startswith("precondition") or kind.startswith("failed precondition"):
+        # the call-site line is the one carrying the ^^^^ marker
+        m = re.search(r"\n\s*\d+ \|([^\n]*)\n\s*\|\s*\^+", text)
+        site = m.group(1) if m else text
+        if re.search(r"\blemma_\w+\s*\(|\baxiom_wf\s*\(", site):
+            return "scaffolding"
+        return "semantic"
+    return "semantic"
+
+
 def verify_file(path, rlimit=30, threads=2, timeout=900):
     cmd = ["verus", path, "--output-json", "--time", "--rlimit", str(rlimit), "--num-threads", str(threads), "--multiple-errors", "4", "--triggers-mode", "silent"]
     rc, out, err, dt = run(cmd, cwd=os.path.dirname(path), timeout=timeout)
@@ -257,9 +274,12 @@ def analyse(spec, text, fnmap, rc, js, err, dt):
         rl = [o for o in other if "rlimit" in o.lower() or "resource limit" in o.lower()]
         st = "verified"
         reason = ""
+        kinds = []
         if hits:
             st = "failed"
             reason = "\n\n".join(h[2] for h in hits[:3])
+            for h in hits:
+                kinds.append(refutation_kind(h[1], h[2]))
         t_ms = 0
         ok_flags = []
         names = [emitted] if emitted else re.findall(r"\bfn (\w+)", "\n".join(text.split("\n")[a - 1:b]))
@@ -274,7 +294,7 @@ def analyse(spec, text, fnmap, rc, js, err, dt):
         if st == "verified" and not ok_flags and emitted:
             st = "undecided"
             reason = "function missing from verus function-breakdown"
-        res[key] = {"status": st, "properties": props, "reason": reason, "time_ms": t_ms, "queries": len(ok_flags)}
+        res[key] = {"status": st, "properties": props, "reason": reason, "time_ms": t_ms, "queries": len(ok_flags), "kinds": sorted(set(kinds))}
     unattributed = []
     for r in refut:
         if not any(a <= r[0] <= b for (a, b, *_r) in fnmap):
